@@ -161,6 +161,8 @@ type harness struct {
 	failures int
 	stop     bool
 	leakBase int
+
+	leakReports int
 }
 
 // playAll plays the sessions on the worlds in parallel (one at a time per world).
@@ -404,22 +406,34 @@ func (h *harness) batch(sessions []Session) {
 }
 
 func (h *harness) attributeLeak(sessions []Session, n int, dump string) {
-	for _, s := range sessions {
-		base, _ := apifuGoroutines()
-		h.evalOne(s, 2*time.Second)
-		if m, d := h.leakCheckFrom(base, 5*time.Second); m > base {
-			// shrink on the leak criterion
+	h.leakReports++
+	t0 := time.Now()
+	if h.leakReports <= 2 {
+		for _, s := range sessions {
+			if time.Since(t0) > 40*time.Second {
+				break
+			}
+			base, _ := apifuGoroutines()
+			h.evalOne(s, 2*time.Second)
+			m, d := h.leakCheckFrom(base, 5*time.Second)
+			if m <= base {
+				continue
+			}
+			// shrink on the leak criterion: drop chunks of steps while goroutines still remain
 			cur := s
-			for changed, budget := true, 40; changed && budget > 0; {
-				changed = false
-				for i := len(cur.Steps) - 1; i >= 0 && budget > 0; i-- {
+			leaks := func(cand Session) (bool, string) {
+				b0, _ := apifuGoroutines()
+				h.evalOne(cand, time.Second)
+				m2, d2 := h.leakCheckFrom(b0, 2*time.Second)
+				return m2 > b0, d2
+			}
+			ts := time.Now()
+			for size := (len(cur.Steps) + 1) / 2; size >= 1 && time.Since(ts) < 15*time.Second; size /= 2 {
+				for i := len(cur.Steps) - size; i >= 0 && time.Since(ts) < 15*time.Second; i -= size {
 					cand := cur
-					cand.Steps = append(append([]Step{}, cur.Steps[:i]...), cur.Steps[i+1:]...)
-					budget--
-					b0, _ := apifuGoroutines()
-					h.evalOne(cand, time.Second)
-					if m2, d2 := h.leakCheckFrom(b0, 2*time.Second); m2 > b0 {
-						cur, changed, d = cand, true, d2
+					cand.Steps = append(append([]Step{}, cur.Steps[:i]...), cur.Steps[i+size:]...)
+					if ok, d2 := leaks(cand); ok {
+						cur, d = cand, d2
 					}
 				}
 			}
@@ -433,10 +447,14 @@ func (h *harness) attributeLeak(sessions []Session, n int, dump string) {
 			return
 		}
 	}
-	what := fmt.Sprintf("%d goroutine(s) remain inside api-fu after a batch of %d sessions ended, but no single session of the batch reproduces it alone: %s", n-h.leakBase, len(sessions), firstLines(dump, 14))
+	what := fmt.Sprintf("%d goroutine(s) remain inside api-fu after a batch of %d sessions ended (not attributed to a single session: %s): %s", n-h.leakBase, len(sessions),
+		map[bool]string{true: "two leaking sessions were reported already", false: "no session of the batch reproduces it alone within the time allowed"}[h.leakReports > 2], firstLines(dump, 14))
 	h.run.Oblige(obLeak, "oracle", len(sessions), false, what)
 	h.run.Violate("property", what, "", true, map[string]any{"batch": sessions})
 	h.failures++
+	if h.failures >= 6 {
+		h.stop = true
+	}
 }
 
 func firstLines(s string, n int) string {
@@ -526,15 +544,7 @@ func main() {
 	}()
 	run.SetRule("client histories over {init ok|rejected, start/subscribe(query|mutation|subscription|failing subscription|invalid document|undecodable payload) with fresh or re-used ids, stop/complete(known|unknown), ping, pong, terminate, unknown type, malformed, close frame} interleaved with source events / source ends / quiescence points, ended by client close, TCP drop, server close or a protocol error, on both sub-protocols; distinct = distinct session; non-trivial = at least one operation was executed")
 
-	// warm-up, then the goroutine baseline
-	for i := 0; i < 2; i++ {
-		var warm []Session
-		for range h.worlds {
-			warm = append(warm, Session{Proto: "tws", Ending: "sclose", Steps: []Step{{Op: "frame", F: "init-ok"}, {Op: "frame", F: "start", ID: 1, Kind: "subscription"}, {Op: "sync"}}})
-		}
-		h.playAll(warm)
-	}
-	h.leakCheck(10 * time.Second)
+	// No connection exists yet: the baseline of goroutines inside api-fu is what is there now (none).
 	h.leakBase, _ = apifuGoroutines()
 
 	if run.Replay != "" {
@@ -559,6 +569,14 @@ func main() {
 		return
 	}
 
+	// warm-up (first dials, first schema use), judged like any other batch
+	var warm []Session
+	for range h.worlds {
+		warm = append(warm, Session{Proto: "tws", Ending: "sclose", Steps: []Step{{Op: "frame", F: "init-ok"}, {Op: "frame", F: "start", ID: 1, Kind: "subscription"}, {Op: "sync"}}},
+			Session{Proto: "ws", Ending: "cclose", Steps: []Step{{Op: "frame", F: "init-ok"}, {Op: "frame", F: "start", ID: 1, Kind: "query"}, {Op: "sync"}}})
+	}
+	h.batch(warm)
+
 	h.selfTest()
 
 	// findings / corpus first
@@ -578,6 +596,12 @@ func main() {
 
 	if atomic.LoadInt64(&timeoutSpent) > 0 {
 		run.Note("time spent in waits that timed out: %.1fs", time.Duration(atomic.LoadInt64(&timeoutSpent)).Seconds())
+	}
+	if atomic.LoadInt64(&timeoutSpent) > int64(timeoutBudget) && run.Violations() == 0 {
+		// sessions were skipped because the waits kept timing out, yet nothing was reported: never pass silently
+		what := fmt.Sprintf("waits for the implementation timed out for %.0fs in total and the rest of the run was skipped, although no played session failed", time.Duration(atomic.LoadInt64(&timeoutSpent)).Seconds())
+		run.Oblige(obCorr, "correspondence", 0, false, what)
+		run.Violate("correspondence", what, "", true, map[string]any{"timeouts": true})
 	}
 	if h.stop {
 		run.Note("generation stopped early after %d failing sessions", h.failures)
